@@ -13,34 +13,79 @@ def _assigned_names(nodes):
     return out
 
 
-def _live_at_head(nodes, name):
-    """False only if every iteration certainly overwrites `name` before reading it: its first occurrence (in source
-    order, loop test included) is a plain store in a top-level statement of the loop body."""
+def _names(node, name, ctx):
     import ast
-    occ = []
+    return any(isinstance(x, ast.Name) and x.id == name and isinstance(x.ctx, ctx) for x in ast.walk(node))
+
+
+def _rbw(stmts, name):
+    """'read': the name may be read before it is written; 'written': on every path it is written before any read;
+    'none': neither happens in these statements.  (Definite assignment, conservative for compound statements.)"""
+    import ast
+    for st in stmts:
+        if isinstance(st, (ast.Assign, ast.AnnAssign)):
+            val = st.value
+            if val is not None and _names(val, name, ast.Load):
+                return 'read'
+            targets = st.targets if isinstance(st, ast.Assign) else [st.target]
+            for t in targets:
+                if isinstance(t, ast.Name):
+                    if t.id == name:
+                        return 'written'
+                elif _names(t, name, ast.Load):
+                    return 'read'
+                elif _names(t, name, ast.Store):
+                    return 'written'            # tuple target
+            continue
+        if isinstance(st, ast.AugAssign):
+            if _names(st, name, (ast.Load, ast.Store)):
+                return 'read'
+            continue
+        if isinstance(st, ast.If):
+            if _names(st.test, name, ast.Load):
+                return 'read'
+            a, b = _rbw(st.body, name), _rbw(st.orelse, name)
+            if 'read' in (a, b):
+                return 'read'
+            if a == b == 'written':
+                return 'written'
+            if 'written' in (a, b):
+                # written on one branch only: a later read may see the old value
+                rest = stmts[stmts.index(st) + 1:]
+                return 'read' if any(_names(r, name, ast.Load) for r in rest) else 'none'
+            continue
+        if isinstance(st, ast.With):
+            if any(_names(it.context_expr, name, ast.Load) for it in st.items):
+                return 'read'
+            r = _rbw(st.body, name)
+            if r != 'none':
+                return r
+            continue
+        # loops, try, anything else: conservative
+        if _names(st, name, ast.Load):
+            return 'read'
+        if _names(st, name, (ast.Store, ast.Del)):
+            rest = stmts[stmts.index(st) + 1:]
+            return 'read' if any(_names(r, name, ast.Load) for r in rest) else 'none'
+    return 'none'
+
+
+def _live_at_head(nodes, name):
+    """False only if every iteration certainly overwrites `name` before reading it."""
+    import ast
     for top in nodes:
-        if isinstance(top, (ast.While, ast.For)):
-            tests = [top.test] if isinstance(top, ast.While) else [top.iter]
-            for t in tests:
-                for x in ast.walk(t):
-                    if isinstance(x, ast.Name) and x.id == name:
-                        return True
-            stmts = top.body
-        else:
-            stmts = [top]
-        for st in stmts:
-            simple = isinstance(st, (ast.Assign, ast.AnnAssign)) and not isinstance(st, ast.AugAssign)
-            for x in ast.walk(st):
-                if isinstance(x, ast.Name) and x.id == name:
-                    is_store = isinstance(x.ctx, ast.Store) and simple and any(
-                        isinstance(t, ast.Name) and t.id == name for t in (st.targets if isinstance(st, ast.Assign) else [st.target]))
-                    occ.append(((x.lineno, x.col_offset), is_store, st))
-    if not occ:
-        return False
-    # an assignment evaluates its right-hand side first: a load of the name in the same statement makes it live
-    first_stmt = min(occ, key=lambda o: o[0])[2]
-    in_first = [o for o in occ if o[2] is first_stmt]
-    return not all(o[1] for o in in_first)
+        if isinstance(top, ast.While):
+            if _names(top.test, name, ast.Load):
+                return True
+            return _rbw(top.body, name) != 'written'
+        if isinstance(top, ast.For):
+            if _names(top.iter, name, ast.Load):
+                return True
+            if _names(top.target, name, ast.Store):
+                return False
+            return _rbw(top.body, name) != 'written'
+    # a plain statement list (the body of a for loop handled by ForSpec)
+    return _rbw(list(nodes), name) != 'written'
 
 
 def _fit(label, fn, *a):
@@ -86,6 +131,7 @@ class LoopSpec(object):
         E = I.E
         E.notes.append('loop contract %s (invariant%s)' % (self.label, ' + variant' if self.variant else ''))
         self.assigned = _assigned_names(node.body)       # for contracts that look for loop-carried locals by role
+        self.live = {k for k in self.assigned if _live_at_head([node], k)}
         E.check('%s.inv-entry' % self.label, _fit(self.label, self.invariant, I, frame), kind='loop')
         _havoc_checked(self.label, self.havoc, I, frame, [node])
         E.assume(_fit(self.label, self.invariant, I, frame))
